@@ -11,6 +11,8 @@ for t in sorted((VERIF / "translate").glob("*.py")):
         continue
     ctx.regen(t.stem)
 props = ["props/%s.v" % p for p in claimed if (COQ / "props" / (p + ".v")).exists()]
+if (COQ / "props" / "PP.v").exists():      # auxiliary engine (./check PP), not a property: built so that its driver can be extracted
+    props.append("props/PP.v")
 b = ctx.coq_build(*props, timeout=3000)
 print("coq build ok=%s obligations=%d discharged=%d wall=%.0fs" % (b.ok, b.obligations, b.discharged, b.wall))
 hard = list(ctx.breaks)
